@@ -14,7 +14,7 @@ use paseto_core::paserk::{
 };
 use paseto_core::tokens::{SealedToken, UnsealedToken};
 use paseto_core::validation::{NoValidation, Validate};
-use paseto_core::version::{Local, PkePublic, PkeSecret, Public, Purpose, SealingVersion, Secret};
+use paseto_core::version::{Local, PkePublic, PkeSecret, Public, Purpose, SealingVersion, Secret, UnsealingVersion};
 use paseto_core::{LocalKey, PasetoError, PublicKey, SecretKey};
 use paseto_json::{Json, RegisteredClaims};
 use serde::{Deserialize, Serialize};
@@ -660,6 +660,13 @@ pub trait Backend: Send + Sync {
     fn seal_key(&self, local: &KeyH, to: &KeyH) -> Out<String>;
     fn unseal_key(&self, s: &str, with: &KeyH) -> Out<KeyH>;
 
+    /// The raw version-trait entry point behind `decrypt`, on a caller-owned buffer (nonce || ciphertext
+    /// || tag as decoded from the token text): (accepted, the buffer afterwards).
+    fn raw_local_unseal(&self, key_raw: &[u8], suffix: &str, payload: &[u8], footer: &[u8], aad: &[u8]) -> Out<(bool, Vec<u8>)>;
+    /// The raw entry points behind PIE and password unwrap on a caller-owned buffer: (accepted, buffer afterwards).
+    fn raw_pie_unwrap(&self, secret_kind: bool, wrapping_key_raw: &[u8], data: &[u8]) -> Out<(bool, Vec<u8>)>;
+    fn raw_pw_unwrap(&self, secret_kind: bool, pass: &[u8], data: &[u8]) -> Out<(bool, Vec<u8>)>;
+
     /// parse `s` as the given artifact kind and re-display it
     fn reparse(&self, a: Artifact, s: &str) -> Out<String>;
     /// the unvalidated `KeyText` layer: parse, re-display, raw bytes round trip, id, comparisons
@@ -1293,6 +1300,35 @@ impl<V: Full> Backend for B<V> {
         guard(|| {
             let w = down::<Key<V, PkeSecret>>(with)?;
             Ok(h(SealedKey::<V>::from_str(s)?.unseal(w)?))
+        })
+    }
+
+    fn raw_local_unseal(&self, key_raw: &[u8], suffix: &str, payload: &[u8], footer: &[u8], aad: &[u8]) -> Out<(bool, Vec<u8>)> {
+        guard(|| {
+            let k = <V as HasKey<Local>>::decode(key_raw)?;
+            let mut buf = payload.to_vec();
+            let enc: &'static str = if suffix == "c" { "c" } else { "" };
+            let ok = <V as UnsealingVersion<Local>>::unseal(&k, enc, &mut buf, footer, aad).is_ok();
+            Ok((ok, buf))
+        })
+    }
+
+    fn raw_pie_unwrap(&self, secret_kind: bool, wrapping_key_raw: &[u8], data: &[u8]) -> Out<(bool, Vec<u8>)> {
+        guard(|| {
+            let k = <V as HasKey<Local>>::decode(wrapping_key_raw)?;
+            let mut buf = data.to_vec();
+            let hdr = if secret_kind { ".secret-wrap.pie." } else { ".local-wrap.pie." };
+            let ok = <V as PieWrapVersion>::pie_unwrap_key(hdr, &k, &mut buf).is_ok();
+            Ok((ok, buf))
+        })
+    }
+
+    fn raw_pw_unwrap(&self, secret_kind: bool, pass: &[u8], data: &[u8]) -> Out<(bool, Vec<u8>)> {
+        guard(|| {
+            let mut buf = data.to_vec();
+            let hdr = if secret_kind { ".secret-pw." } else { ".local-pw." };
+            let ok = <V as PwWrapVersion>::pw_unwrap_key(hdr, pass, &mut buf).is_ok();
+            Ok((ok, buf))
         })
     }
 
